@@ -40,7 +40,7 @@ def match_known(known, prop, r):
     return None
 
 
-def report(prop, tier, seed, results, registry, known, expected, head, dirty, wall):
+def report(prop, tier, seed, results, registry, known, expected, head, dirty, wall, write=True):
     on_reference = (not dirty) and expected.get("repo_head") == head
     exp = expected.get("obligations", {})
     deductive = [r for r in results if registry[r["name"]].bounded is None]
@@ -70,8 +70,9 @@ def report(prop, tier, seed, results, registry, known, expected, head, dirty, wa
             r["note"] = (r.get("note") or "") + " solver refuted but the witness did not reproduce and the obligation was never discharged"
             undecided.append(r)
             continue
-        os.makedirs(os.path.join(VERIF_DIR, "replays", prop or "all"), exist_ok=True)
-        rel = os.path.join("replays", prop or "all", _safe(r["name"]) + ".json")
+        rdir = "replays" if write else os.path.join(".cache", "replays-selftest")
+        os.makedirs(os.path.join(VERIF_DIR, rdir, prop or "all"), exist_ok=True)
+        rel = os.path.join(rdir, prop or "all", _safe(r["name"]) + ".json")
         solver_output = "; ".join("%s: %s (%s, %.3fs)" % (g["label"], g["verdict"], g["backend"], g["seconds"]) for g in r["goals"] if g["verdict"] == "sat")
         payload = {"obligation": r["name"], "property": prop, "failed_goals": bad_goals, "witness": r.get("witness") if reproduced else None,
                    "solver_witness": r.get("witness"), "replay": rep, "solver_output": solver_output, "note": r.get("note", ""),
@@ -152,8 +153,9 @@ def report(prop, tier, seed, results, registry, known, expected, head, dirty, wa
     }
     ev = {"property_id": prop, "tier": tier, "seed": seed, "level": level_run, "coverage": coverage,
           "assumptions": GLOBAL_ASSUMPTIONS + extra_assumptions, "wall_s": round(wall, 2), "violations": violations}
-    os.makedirs(os.path.join(VERIF_DIR, "evidence"), exist_ok=True)
-    json.dump(ev, open(os.path.join(VERIF_DIR, "evidence", "%s.json" % prop), "w"), indent=1)
+    if write:
+        os.makedirs(os.path.join(VERIF_DIR, "evidence"), exist_ok=True)
+        json.dump(ev, open(os.path.join(VERIF_DIR, "evidence", "%s.json" % prop), "w"), indent=1)
 
     print("%s functions under contract: %d   paths: %d   obligations: %d (+%d bounded)" %
           (prop, len(functions), coverage["paths_explored"], n_ob, len(bounded)))
